@@ -37,7 +37,7 @@ pub const DEF: CheckDef = CheckDef {
     id: "C18",
     run,
     technique: "bounded-exhaustive enumeration of consistent camt.053 statements rendered as XML by the generator; the real importer (library entry point and ImportCmd on real files) is compared with a reference import written from the statement, and funding + printed output is fed back through the real report::process (acceptance and exact final balance)",
-    rule: "case = one statement = (opening balance {0, 100.00, -50.25}, row_order {old_to_new, new_to_old}, sequence of entries). Entry alphabet E (990) = side{CRDT,DBIT} x amount{0.05, 10.10, 1000} x dates{value=booking, booking=value+1, booking=value-1, value date absent, value date absent and booking date as DtTm with offset} x 33 detail/charge shapes (0/1/2/3 TxDtls whose signed amounts sum to the entry, incl. batches of 2 and 3 where one detail (first or last) has the OPPOSITE CdtDbtInd, with and without AmtDtls and with an included charge on the opposite detail; NtryDtls absent / Btch only; AmtDtls present/absent; charge: none, zero record, included at entry level, at detail level, at both, on the second detail only, not included; two and three non-zero charge records landing on one imported transaction without TxAmt: 2/3 records in one entry-level Chrgs, 2 in one detail-level Chrgs, entry-level + detail-level on a single detail and on the first detail of a batch, 2 entry-level records on a batch, 2 records with TxAmt, 2 not-included records). Families, each a complete product x 3 openings x 2 row orders: F0 no entry (6); F1 one entry over E (5 940); quick: F2 two entries over E2 = 108 (side x amount x {value=booking, booking=value+1} x 9 shapes incl. a mixed-indicator batch of 3 and an entry with two included charge records and no TxAmt) (69 984), F2d two entries over 20 = side x 10.10 x 5 dates x {k0,k2} (2 400), F3 three entries over 12 = side x amount x {k0, k2-det-incl} (10 368); thorough: F2 two entries over E (5 880 600), F3 three entries over 72 = side x amount x 2 dates x 6 shapes (2 239 488), F4 four entries over 12 (124 416). states = statements executed, transitions = ledger transactions compared with the reference (both observations), validated = MUST statements",
+    rule: "case = one statement = (opening balance {0, 100.00, -50.25}, row_order {old_to_new, new_to_old}, sequence of entries). Entry alphabet E (1140) = side{CRDT,DBIT} x amount{0.05, 10.10, 1000} x dates{value=booking, booking=value+1, booking=value-1, value date absent, value date absent and booking date as DtTm with offset} x 38 detail/charge shapes (0/1/2/3 TxDtls whose signed amounts sum to the entry, incl. batches of 2 and 3 where one detail (first or last) has the OPPOSITE CdtDbtInd, with and without AmtDtls and with an included charge on the opposite detail; NtryDtls absent / Btch only; AmtDtls present/absent; charge: none, zero record, included at entry level, at detail level, at both, on the second detail only, not included; two and three non-zero charge records landing on one imported transaction without TxAmt: 2/3 records in one entry-level Chrgs, 2 in one detail-level Chrgs, entry-level + detail-level on a single detail and on the first detail of a batch, 2 entry-level records on a batch, 2 records with TxAmt, 2 not-included records; batches whose details differ in carrying AmtDtls: 2 details (TxAmt != Amt + charge, then charge without AmtDtls) in both orders, 3 details with the TxAmt detail first / middle / last). Families, each a complete product x 3 openings x 2 row orders: F0 no entry (6); F1 one entry over E (6 840); quick: F2 two entries over E2 = 108 (side x amount x {value=booking, booking=value+1} x 9 shapes incl. a mixed-indicator batch of 3 and an entry with two included charge records and no TxAmt) (69 984), F2d two entries over 20 = side x 10.10 x 5 dates x {k0,k2} (2 400), F3 three entries over 12 = side x amount x {k0, k2-det-incl} (10 368); thorough: F2 two entries over E (7 797 600), F3 three entries over 72 = side x amount x 2 dates x 6 shapes (2 239 488), F4 four entries over 12 (124 416). states = statements executed, transitions = ledger transactions compared with the reference (both observations), validated = MUST statements",
     assumptions: &[
         "the generator's XML skeleton follows okane's own sample file (cli/tests/testdata/import/iso_camt.xml); elements okane does not model (GrpHdr, Acct, TxsSummry, RvslInd, Sts, Btch totals, RltdPties) are constant",
         "included charge: the entry/detail amount is the account movement; AmtDtls/TxAmt (when rendered) is the amount net of the included charges (debit: Amt - charges, credit: Amt + charges) as in the sample file; an entry-level charge on a two-detail batch is attributed to the first detail's TxAmt",
@@ -129,21 +129,27 @@ struct Shape {
     /// NtryDtls/Btch rendered (always when k > 0)
     btch: bool,
     entry_chg: Chg,
-    det_chg: [Chg; 2],
-    /// AmtDtls (InstdAmt, TxAmt) rendered in each TxDtls
-    amt_dtls: bool,
+    det_chg: [Chg; 3],
+    /// AmtDtls (InstdAmt, TxAmt) rendered in the j-th TxDtls
+    amt: [bool; 3],
 }
 
 const fn sh(name: &'static str, k: usize, btch: bool, entry_chg: Chg, d0: Chg, d1: Chg, amt_dtls: bool) -> Shape {
-    Shape { name, k, opp: None, btch, entry_chg, det_chg: [d0, d1], amt_dtls }
+    Shape { name, k, opp: None, btch, entry_chg, det_chg: [d0, d1, Chg::None], amt: [amt_dtls; 3] }
 }
 
 /// batch with one detail of the opposite indicator
 const fn shm(name: &'static str, k: usize, opp: Option<usize>, d1: Chg, amt_dtls: bool) -> Shape {
-    Shape { name, k, opp, btch: true, entry_chg: Chg::None, det_chg: [Chg::None, d1], amt_dtls }
+    Shape { name, k, opp, btch: true, entry_chg: Chg::None, det_chg: [Chg::None, d1, Chg::None], amt: [amt_dtls; 3] }
 }
 
-const SHAPES: [Shape; 33] = [
+/// heterogeneous batch: every detail carries one included detail-level charge; `t` = index of the only detail that
+/// also has AmtDtls (TxAmt = amount net of the charge, i.e. TxAmt != Amt), the others have no AmtDtls at all
+const fn shh(name: &'static str, k: usize, opp: Option<usize>, t: usize) -> Shape {
+    Shape { name, k, opp, btch: true, entry_chg: Chg::None, det_chg: [Chg::Incl; 3], amt: [t == 0, t == 1, t == 2] }
+}
+
+const SHAPES: [Shape; 38] = [
     sh("k0", 0, false, Chg::None, Chg::None, Chg::None, false),
     sh("k0-btch", 0, true, Chg::None, Chg::None, Chg::None, false),
     sh("k1", 1, true, Chg::None, Chg::None, Chg::None, false),
@@ -179,21 +185,36 @@ const SHAPES: [Shape; 33] = [
     sh("k2-both-incl-noamtdtls", 2, true, Chg::InclSmall, Chg::Incl, Chg::None, false),
     sh("k1-det-incl2", 1, true, Chg::None, Chg::Incl2, Chg::None, true),
     sh("k0-entry-notincl2", 0, false, Chg::NotIncl2, Chg::None, Chg::None, false),
+    // details of one batch that differ in whether they carry AmtDtls/TxAmt (T) or not (N); all with an included charge
+    shh("k2-TN", 2, None, 0),
+    shh("k2-NT", 2, None, 1),
+    // three details 0.03, 0.04 and (opposite side) 0.02 so that no counter posting becomes zero
+    shh("k3-TNN", 3, Some(2), 0),
+    shh("k3-NTN", 3, Some(2), 1),
+    shh("k3-NNT", 3, Some(2), 2),
 ];
 
 impl Shape {
     fn chg(&self, j: usize) -> Chg {
-        self.det_chg.get(j).copied().unwrap_or(Chg::None)
+        if j < self.k {
+            self.det_chg[j]
+        } else {
+            Chg::None
+        }
+    }
+    /// details differ in whether they carry AmtDtls
+    fn heterogeneous(&self) -> bool {
+        (1..self.k).any(|j| self.amt[j] != self.amt[0])
     }
     fn has_not_included(&self) -> bool {
-        self.entry_chg.not_included(ENTRY_CHARGE) > 0 || self.det_chg.iter().any(|c| c.not_included(DETAIL_CHARGE) > 0)
+        self.entry_chg.not_included(ENTRY_CHARGE) > 0 || (0..self.k).any(|j| self.chg(j).not_included(DETAIL_CHARGE) > 0)
     }
     /// one entry-level charge record on an entry with two details
     fn entry_charge_on_batch(&self) -> bool {
         self.k >= 2 && self.entry_chg.included(ENTRY_CHARGE) > 0
     }
     fn has_included(&self) -> bool {
-        self.entry_chg.included(ENTRY_CHARGE) > 0 || self.det_chg.iter().any(|c| c.included(DETAIL_CHARGE) > 0)
+        self.entry_chg.included(ENTRY_CHARGE) > 0 || (0..self.k).any(|j| self.chg(j).included(DETAIL_CHARGE) > 0)
     }
     /// largest number of non-zero charge records that land on one imported transaction
     /// (entry-level records go to the entry's transaction, resp. to the first detail's)
@@ -207,7 +228,10 @@ impl Shape {
     }
     /// an included charge but no TxAmt from which the net amount could be read
     fn included_without_txamt(&self) -> bool {
-        self.has_included() && (self.k == 0 || !self.amt_dtls)
+        if self.k == 0 {
+            return self.has_included();
+        }
+        (0..self.k).any(|j| !self.amt[j] && (self.chg(j).included(DETAIL_CHARGE) > 0 || (j == 0 && self.entry_chg.included(ENTRY_CHARGE) > 0)))
     }
 }
 
@@ -367,7 +391,7 @@ fn render_entry(out: &mut String, stmt: &Stmt, i: usize) {
             out.push_str("          <TxDtls>\n");
             out.push_str(&format!("            <Refs>\n              <AcctSvcrRef>REF/{}/{}</AcctSvcrRef>\n              <EndToEndId>NOTPROVIDED</EndToEndId>\n            </Refs>\n", i + 1, j + 1));
             out.push_str(&format!("            <Amt Ccy=\"{}\">{}</Amt>\n            <CdtDbtInd>{}</CdtDbtInd>\n", CCY, cents(*da), dcd));
-            if s.amt_dtls {
+            if s.amt[j] {
                 // charges carried by this detail
                 let mut incl = s.chg(j).included(DETAIL_CHARGE);
                 let mut not_incl = s.chg(j).not_included(DETAIL_CHARGE);
@@ -789,7 +813,7 @@ fn families(thorough: bool) -> Vec<Family> {
     let all_dates = [Dates::Same, Dates::BookLater, Dates::BookEarlier, Dates::ValueAbsent, Dates::BookDtTmOnly];
     let all_shapes: Vec<usize> = (0..SHAPES.len()).collect();
     let idx = |names: &[&str]| -> Vec<usize> { names.iter().map(|n| shape_idx(n)).collect() };
-    // E: 2 x 3 x 5 x 33 = 990
+    // E: 2 x 3 x 5 x 38 = 1140
     let full = alphabet(&both, &all_amts, &all_dates, &all_shapes);
     // E2: 2 x 3 x 2 x 9 = 108
     let e2 = alphabet(&both, &all_amts, &[Dates::Same, Dates::BookLater], &idx(&["k0", "k1", "k2", "k1-entry-incl", "k2-det-incl", "k0-entry-incl2", "k2-entry-incl", "k1-det-notincl", "k3-mixed"]));
@@ -848,6 +872,7 @@ fn run(ctx: &mut Ctx) {
             ctx.count("states", 1);
             ctx.count("entries", stmt.entries.len() as u64);
             ctx.count("statements_new_to_old", stmt.new_to_old as u64);
+            ctx.count("batches_with_and_without_amtdtls", stmt.entries.iter().filter(|e| e.shape().heterogeneous()).count() as u64);
             ctx.count("entries_with_several_charge_records_on_one_transaction", stmt.entries.iter().filter(|e| e.shape().records_on_one_txn() >= 2).count() as u64);
             ctx.count("details_with_opposite_indicator", stmt.entries.iter().filter(|e| e.shape().opp.is_some()).count() as u64);
             ctx.count("details", stmt.entries.iter().map(|e| e.shape().k as u64).sum());
